@@ -47,7 +47,10 @@ def pipeline(ctx, cid, x, y, strat, n, kw, append, rule, info):
             wv = Weaver(x, y)
             if append is not None:
                 wv.append_one_sample(make_periodic=append)
-            wv.recreate_from_average(n, rfa_class=R.cls(strat), **kw)
+            if strat == "ExpAdaptiveRFA" and not kw:
+                wv.recreate_from_average(n)                    # documented default strategy
+            else:
+                wv.recreate_from_average(n, rfa_class=R.cls(strat), **kw)
             xs0, ys0 = wv.get()
             ys0 = np.array(ys0, dtype=float)
             wv.integral_match(target_function_integral_method=rule)
